@@ -271,6 +271,36 @@ class Gen:
                 return r
         return [a + b], ["M"], set()
 
+    def p_lua_pair(self):
+        """two long-bracket comments of DIFFERENT levels that both span lines, code between them; the text of the
+        second mentions the closer of the first (each comment ends at the closer of its own level only)"""
+        rng = self.rng
+        l1, l2 = rng.sample(range(0, 4), 2)
+        out_l, out_t, tags = [], [], set()
+        for k, lvl in enumerate((l1, l2)):
+            a, b = "--[" + "=" * lvl + "[", "]" + "=" * lvl + "]"
+            other = "]" + "=" * (l2 if k == 0 else l1) + "]"
+            r = None
+            for _ in range(30):
+                r = self.block_lines(a, b, rng.choice([2, 3]))
+                if r:
+                    break
+            if not r:
+                return self.p_lua()
+            l, t, g = r
+            if k == 1 and rng.random() < 0.7 and b not in (" x " + other + " y"):
+                l = [l[0]] + [" x " + other + " y"] + l[1:]
+                t = t + ["M"]
+            out_l += l
+            out_t += t
+            tags |= g
+            if k == 0:
+                cl, ct, cg = self.p_code()
+                out_l += cl
+                out_t += ct
+                tags |= cg
+        return out_l, out_t, tags
+
     def p_linestart(self):
         rng = self.rng
         if not self.f["linestart"]:
@@ -322,7 +352,7 @@ class Gen:
         if r < 0.82:
             return self.p_nested()
         if r < 0.88:
-            return self.p_lua()
+            return self.p_lua_pair() if self.f["lua"] and rng.random() < 0.35 else self.p_lua()
         if r < 0.94:
             return self.p_linestart()
         return self.p_triple()
